@@ -508,6 +508,11 @@ class CommitHandler(processor.CommitHandler):
         result = {}
         if props is not None:
             for name, value in props.items():
+                # the fast-import parser hands names and values over as bytes
+                if isinstance(name, bytes):
+                    name = name.decode("utf-8")
+                if isinstance(value, bytes):
+                    value = value.decode("utf-8")
                 if value is None:
                     self.warning(f"converting None to empty string for property {name}")
                     result[name] = ""
